@@ -82,7 +82,7 @@ def removal_only(prog):
     return out
 
 
-def structural_exception(prog, fn, call, idx, na):
+def structural_exception(prog, fn, call, idx, na, allow_region=False):
     """reason string if the possibly-empty index is covered by a reasoned shape invariant, recognised structurally
     (no function names): returns None otherwise"""
     from rules.pool import pool_roles
@@ -133,7 +133,7 @@ def structural_exception(prog, fn, call, idx, na):
             return R_SIBLING
     # anywhere inside the rebalancing: the links it follows (uncle, sibling, nephews, grandparent) exist because of the
     # red-black shape invariants, whichever way the cases are written
-    if fn.path in repair_region(prog) and all(a[0] in ('link', 'param', 'root') for a in atoms):
+    if allow_region and fn.path in repair_region(prog) and all(a[0] in ('link', 'param', 'root') for a in atoms):
         return R_REPAIR
     return None
 
@@ -208,7 +208,8 @@ def run(ctx):
     assumed = set()
     reasons = {}
     na = None
-    for _ in range(6):
+    region_phase = False        # the region-wide reason is the last resort: first the precise shape invariants to a fixpoint
+    for _ in range(10):
         na = NullAnalysis(prog, assumed).solve()
         new = set()
         for fn in prog.fns.values():
@@ -220,7 +221,7 @@ def run(ctx):
                 flags = r.arg_nonempty.get(call.id)
                 if flags is None or flags[1]:
                     continue
-                why = structural_exception(prog, fn, call, strip(call.args[1]), na)
+                why = structural_exception(prog, fn, call, strip(call.args[1]), na, region_phase)
                 if why:
                     new.add((fn.path, strip(call.args[1]).id))
                     reasons[(fn.path, strip(call.args[1]).id)] = why
@@ -234,12 +235,15 @@ def run(ctx):
                     continue
                 for k in na.u32_params(tgt):
                     if k - 1 < len(flags) and not flags[k - 1] and not prog.is_empty_ref(call.args[k - 1]):
-                        why = structural_exception(prog, fn, call, strip(call.args[k - 1]), na)
+                        why = structural_exception(prog, fn, call, strip(call.args[k - 1]), na, region_phase)
                         if why:
                             new.add((fn.path, strip(call.args[k - 1]).id))
                             reasons[(fn.path, strip(call.args[k - 1]).id)] = why
         if new <= assumed:
-            break
+            if region_phase:
+                break
+            region_phase = True
+            continue
         assumed |= new
     ctx.null_analysis = na
     n_sites = 0
